@@ -1,4 +1,258 @@
+/-
+C18 — the validator always produces a report and each check is exact.
+Model: `Model/Validate.lean`.  Totality ("never raises") is part of the model: every check
+is a total function of any lexicon; the source's only partial operations (`sspos[target]`,
+`REVERSE_RELATIONS[typ]`) are guarded, and the guards are mirrored.
+Exactness is stated on the key set of each check (the entities listed), for every lexicon.
+-/
 import WnVerif.Model.Validate
+import WnVerif.Lemmas.Dict
 namespace WnVerif.Props.C18
-theorem placeholder_true : True := trivial
+open WnVerif.Validate WnVerif.Doc
+
+theorem contains_false_iff {α} [BEq α] [LawfulBEq α] (l : List α) (x : α) : l.contains x = false ↔ x ∉ l := by
+  simp
+
+/-- REVERSE_RELATIONS (regenerated from constants.py on every run) is an involution … -/
+theorem C18_reverse_involution :
+    ∀ e ∈ Gen.reverse_relations, (e.2, e.1) ∈ Gen.reverse_relations := by
+  decide +kernel
+
+/-- … is a function (no relation has two reverses) … -/
+theorem C18_reverse_functional :
+    (Gen.reverse_relations.map (·.1)).Nodup := by
+  decide +kernel
+
+/-- … and stays inside the relation inventories -/
+theorem C18_reverse_closed :
+    ∀ e ∈ Gen.reverse_relations, e.1 ∈ Gen.synset_relations ∨ e.1 ∈ Gen.sense_relations ∨ e.1 ∈ Gen.sense_synset_relations := by
+  decide +kernel
+
+/-- the report contains exactly the selected checks, in table order -/
+theorem C18_selected (l : Lexicon) (select : List String) (h : l.ext = none) :
+    (validate l select).map (·.1) = (codes.map (·.1)).filter (selected select) := by
+  simp only [validate, h, Option.isSome_none, Bool.false_eq_true, if_false, List.map_map]
+  induction codes with
+  | nil => rfl
+  | cons c t ih =>
+    simp only [List.filter_cons, List.map_cons]
+    split <;> simp_all
+
+theorem C18_eighteen_checks : codes.map (·.1) =
+    ["E101", "W201", "W202", "W203", "E204", "W301", "W302", "W303", "W304", "W305", "W306", "W307",
+     "E401", "W402", "W403", "W404", "W501", "W502"] := rfl
+
+/-- a category letter selects every code of the category, a code selects itself -/
+theorem C18_select_rule (select : List String) (code : String) :
+    selected select code = true ↔ code ∈ select ∨ (code.take 1).toString ∈ select := by
+  simp [selected]
+
+/-- extensions are not validated -/
+theorem C18_extension_empty (l : Lexicon) (select : List String) (h : l.ext.isSome = true) : validate l select = [] := by
+  simp [validate, h]
+
+/-- report keys are distinct (a Python dict) -/
+theorem C18_items_distinct (pairs : List (String × Ctx)) : ((dictOf pairs).map (·.1)).Nodup := dictOf_nodup pairs
+
+/-! ### exactness, one theorem per check -/
+
+/-- W201: exactly the lexical entries without senses -/
+theorem C18_W201 (l : Lexicon) (id : String) :
+    id ∈ (W201 l).map (·.1) ↔ ∃ e ∈ l.entries, e.id = id ∧ e.senses = [] := by
+  unfold W201
+  rw [mem_keys_dictOf]
+  simp only [List.map_map, List.mem_map, List.mem_filter, Function.comp, List.isEmpty_iff]
+  constructor
+  · rintro ⟨e, ⟨he, hs⟩, rfl⟩; exact ⟨e, he, rfl, hs⟩
+  · rintro ⟨e, he, rfl, hs⟩; exact ⟨e, ⟨he, hs⟩, rfl⟩
+
+/-- E204: exactly the senses whose synset is not a synset of the lexicon -/
+theorem C18_E204 (l : Lexicon) (id : String) :
+    id ∈ (E204 l).map (·.1) ↔ ∃ e ∈ l.entries, ∃ s ∈ e.senses, s.id = id ∧ s.synset ∉ synsetIds l := by
+  unfold E204
+  rw [mem_keys_dictOf]
+  simp only [List.map_flatMap, List.mem_flatMap, List.map_map, List.mem_map,
+    List.mem_filter, Function.comp, Bool.not_eq_true', contains_false_iff, List.contains_iff_mem]
+  constructor
+  · rintro ⟨e, he, s, ⟨hs, hn⟩, rfl⟩; exact ⟨e, he, s, hs, rfl, hn⟩
+  · rintro ⟨e, he, s, hs, rfl, hn⟩; exact ⟨e, he, s, ⟨hs, hn⟩, rfl⟩
+
+/-- W301: exactly the synsets no sense refers to -/
+theorem C18_W301 (l : Lexicon) (id : String) :
+    id ∈ (W301 l).map (·.1) ↔ ∃ ss ∈ l.synsets, ss.id = id ∧ ∀ e ∈ l.entries, ∀ s ∈ e.senses, s.synset ≠ ss.id := by
+  unfold W301
+  rw [mem_keys_dictOf]
+  simp only [List.map_map, List.mem_map, List.mem_filter, Function.comp,
+    Bool.not_eq_true', contains_false_iff, List.contains_iff_mem, List.mem_flatMap, not_exists, not_and]
+  constructor
+  · rintro ⟨ss, ⟨hss, hn⟩, rfl⟩
+    refine ⟨ss, hss, rfl, ?_⟩
+    intro e he s hs heq
+    exact hn e he s hs heq
+  · rintro ⟨ss, hss, rfl, hn⟩
+    exact ⟨ss, ⟨hss, fun e he s hs heq => hn e he s hs heq⟩, rfl⟩
+
+/-- W303: exactly the synsets proposing a new ILI without an ILI definition -/
+theorem C18_W303 (l : Lexicon) (id : String) :
+    id ∈ (W303 l).map (·.1) ↔ ∃ ss ∈ l.synsets, ss.id = id ∧ ss.ili = "in" ∧ ss.iliDef = none := by
+  unfold W303
+  rw [mem_keys_dictOf]
+  simp only [List.map_map, List.mem_map, List.mem_filter, Function.comp,
+    Bool.and_eq_true, beq_iff_eq, Option.isNone_iff_eq_none]
+  constructor
+  · rintro ⟨ss, ⟨hss, h1, h2⟩, rfl⟩; exact ⟨ss, hss, rfl, h1, h2⟩
+  · rintro ⟨ss, hss, rfl, h1, h2⟩; exact ⟨ss, ⟨hss, h1, h2⟩, rfl⟩
+
+/-- W304: exactly the synsets with an existing ILI and a (spurious) ILI definition -/
+theorem C18_W304 (l : Lexicon) (id : String) :
+    id ∈ (W304 l).map (·.1) ↔ ∃ ss ∈ l.synsets, ss.id = id ∧ ss.ili ≠ "" ∧ ss.ili ≠ "in" ∧ ss.iliDef.isSome = true := by
+  unfold W304
+  rw [mem_keys_dictOf]
+  simp only [List.map_filterMap, List.mem_filterMap]
+  constructor
+  · rintro ⟨ss, hss, h⟩
+    cases hd : ss.iliDef with
+    | none => simp [hd] at h
+    | some d =>
+      simp only [hd] at h
+      split at h
+      · rename_i hc
+        simp only [Bool.and_eq_true, bne_iff_ne, ne_eq] at hc
+        simp at h
+        exact ⟨ss, hss, h, hc.1, hc.2, by rw [hd]; rfl⟩
+      · simp at h
+  · rintro ⟨ss, hss, rfl, h1, h2, h3⟩
+    refine ⟨ss, hss, ?_⟩
+    cases hd : ss.iliDef with
+    | none => simp [hd] at h3
+    | some d => simp [h1, h2]
+
+/-- W305 / W306: exactly the synsets with a blank definition / example -/
+theorem C18_W305 (l : Lexicon) (id : String) :
+    id ∈ (W305 l).map (·.1) ↔ ∃ ss ∈ l.synsets, ss.id = id ∧ ∃ d ∈ ss.definitions, blank d.text = true := by
+  unfold W305
+  rw [mem_keys_dictOf]
+  simp only [List.map_map, List.mem_map, List.mem_filter, Function.comp, List.any_eq_true]
+  constructor
+  · rintro ⟨ss, ⟨hss, h⟩, rfl⟩; exact ⟨ss, hss, rfl, h⟩
+  · rintro ⟨ss, hss, rfl, h⟩; exact ⟨ss, ⟨hss, h⟩, rfl⟩
+
+theorem C18_W306 (l : Lexicon) (id : String) :
+    id ∈ (W306 l).map (·.1) ↔ ∃ ss ∈ l.synsets, ss.id = id ∧ ∃ d ∈ ss.examples, blank d.text = true := by
+  unfold W306
+  rw [mem_keys_dictOf]
+  simp only [List.map_map, List.mem_map, List.mem_filter, Function.comp, List.any_eq_true]
+  constructor
+  · rintro ⟨ss, ⟨hss, h⟩, rfl⟩; exact ⟨ss, hss, rfl, h⟩
+  · rintro ⟨ss, hss, rfl, h⟩; exact ⟨ss, ⟨hss, h⟩, rfl⟩
+
+/-- E401: exactly the senses / synsets with a relation whose target is not a sense or synset
+(for synset relations: not a synset) of the lexicon -/
+theorem C18_E401 (l : Lexicon) (id : String) :
+    id ∈ (E401 l).map (·.1) ↔
+      (∃ p ∈ senseRels l, p.1.id = id ∧ p.2.target ∉ senseIds l ∧ p.2.target ∉ synsetIds l) ∨
+      (∃ p ∈ synsetRels l, p.1.id = id ∧ p.2.target ∉ synsetIds l) := by
+  unfold E401
+  rw [mem_keys_dictOf]
+  simp only [List.map_append, List.map_map, List.mem_append, List.mem_map,
+    List.mem_filter, Function.comp, Bool.and_eq_true, Bool.not_eq_true', contains_false_iff, List.contains_iff_mem]
+  constructor
+  · rintro (⟨p, ⟨hp, h1, h2⟩, rfl⟩ | ⟨p, ⟨hp, h⟩, rfl⟩)
+    · exact Or.inl ⟨p, hp, rfl, h1, h2⟩
+    · exact Or.inr ⟨p, hp, rfl, h⟩
+  · rintro (⟨p, hp, rfl, h1, h2⟩ | ⟨p, hp, rfl, h⟩)
+    · exact Or.inl ⟨p, ⟨hp, h1, h2⟩, rfl⟩
+    · exact Or.inr ⟨p, ⟨hp, h⟩, rfl⟩
+
+/-- W502: exactly the senses / synsets with a relation to themselves -/
+theorem C18_W502 (l : Lexicon) (id : String) :
+    id ∈ (W502 l).map (·.1) ↔
+      (∃ p ∈ senseRels l, p.1.id = id ∧ p.2.target = id) ∨ (∃ p ∈ synsetRels l, p.1.id = id ∧ p.2.target = id) := by
+  unfold W502
+  rw [mem_keys_dictOf]
+  simp only [List.map_append, List.map_map, List.mem_append, List.mem_map,
+    List.mem_filter, Function.comp, beq_iff_eq]
+  constructor
+  · rintro (⟨p, ⟨hp, h⟩, rfl⟩ | ⟨p, ⟨hp, h⟩, rfl⟩)
+    · exact Or.inl ⟨p, hp, rfl, h.symm⟩
+    · exact Or.inr ⟨p, hp, rfl, h.symm⟩
+  · rintro (⟨p, hp, rfl, h⟩ | ⟨p, hp, rfl, h⟩)
+    · exact Or.inl ⟨p, ⟨hp, h.symm⟩, rfl⟩
+    · exact Or.inr ⟨p, ⟨hp, h.symm⟩, rfl⟩
+
+/-- W402: exactly the senses / synsets with a relation whose type is not in the inventory for
+its kind of source and target -/
+theorem C18_W402 (l : Lexicon) (id : String) :
+    id ∈ (W402 l).map (·.1) ↔
+      (∃ p ∈ senseRels l, p.1.id = id ∧
+        ((p.2.target ∈ senseIds l ∧ p.2.relType ∉ Gen.sense_relations) ∨
+         (p.2.target ∈ synsetIds l ∧ p.2.relType ∉ Gen.sense_synset_relations))) ∨
+      (∃ p ∈ synsetRels l, p.1.id = id ∧ p.2.relType ∉ Gen.synset_relations) := by
+  unfold W402
+  rw [mem_keys_dictOf]
+  simp only [List.map_append, List.map_map, List.mem_append, List.mem_map,
+    List.mem_filter, Function.comp, Bool.and_eq_true, Bool.or_eq_true, Bool.not_eq_true',
+    contains_false_iff, List.contains_iff_mem]
+  constructor
+  · rintro (⟨p, ⟨hp, h⟩, rfl⟩ | ⟨p, ⟨hp, h⟩, rfl⟩)
+    · exact Or.inl ⟨p, hp, rfl, h⟩
+    · exact Or.inr ⟨p, hp, rfl, h⟩
+  · rintro (⟨p, hp, rfl, h⟩ | ⟨p, hp, rfl, h⟩)
+    · exact Or.inl ⟨p, ⟨hp, h⟩, rfl⟩
+    · exact Or.inr ⟨p, ⟨hp, h⟩, rfl⟩
+
+/-- W404: a target is listed exactly when some (regular) relation into it lacks its reverse;
+the reported context is such a missing reverse relation -/
+theorem C18_W404_sound (l : Lexicon) (tgt : String) (ctx : Ctx) (h : (tgt, ctx) ∈ W404 l) :
+    ∃ src typ rev, reverseOf typ = some rev ∧ ctx = [("type", Val.str rev), ("target", Val.str src)] ∧
+      ((∃ p ∈ senseRels l, p.1.id = src ∧ p.2.relType = typ ∧ p.2.target = tgt ∧ tgt ∈ senseIds l) ∨
+       (∃ p ∈ synsetRels l, p.1.id = src ∧ p.2.relType = typ ∧ p.2.target = tgt)) := by
+  unfold W404 at h
+  have h' := mem_dictOf _ _ h
+  simp only [List.mem_filterMap] at h'
+  obtain ⟨⟨src, typ, t⟩, hreg, hsome⟩ := h'
+  simp only at hsome
+  cases hr : reverseOf typ with
+  | none => simp [hr] at hsome
+  | some rev =>
+    simp only [hr] at hsome
+    split at hsome
+    · simp at hsome
+    · simp at hsome
+      obtain ⟨rfl, rfl⟩ := hsome
+      refine ⟨src, typ, rev, hr, rfl, ?_⟩
+      have hmem : ∀ (L : List (String × String × String)) x, x ∈ dedupTriples L → x ∈ L := by
+        intro L
+        induction L with
+        | nil => intro x hx; simp [dedupTriples] at hx
+        | cons a t ih =>
+          intro x hx
+          simp only [dedupTriples, List.mem_cons, List.mem_filter] at hx
+          rcases hx with hx | ⟨hx, _⟩
+          · exact List.mem_cons.mpr (Or.inl hx)
+          · exact List.mem_cons_of_mem _ (ih x hx)
+      have := hmem _ _ hreg
+      simp only [List.mem_append, List.mem_map, List.mem_filter] at this
+      rcases this with ⟨p, ⟨hp, hin⟩, heq⟩ | ⟨p, hp, heq⟩
+      · simp only [Prod.mk.injEq] at heq
+        obtain ⟨h1, h2, h3⟩ := heq
+        left
+        exact ⟨p, hp, h1, h2, h3, by rw [← h3]; simpa using hin⟩
+      · simp only [Prod.mk.injEq] at heq
+        obtain ⟨h1, h2, h3⟩ := heq
+        right
+        exact ⟨p, hp, h1, h2, h3⟩
+
+/-- non-vacuity / regression witness for the repaired W501: a hypernym relation to a missing
+synset is reported by E401 and does not make W501 (or the report) fail -/
+def brokenLex : Lexicon :=
+  { id := "v", version := "1", label := "v", language := "en", email := "e", license := "l",
+    synsets := [{ id := "v-1", ili := "", pos := some "n",
+                  relations := [{ target := "v-9", relType := "hypernym" }] }] }
+
+theorem C18_dangling_hypernym :
+    (E401 brokenLex).map (·.1) = ["v-1"] ∧ W501 brokenLex = [] ∧
+    ((validate brokenLex ["E", "W"]).map (·.1)).length = 18 := by
+  decide +kernel
+
 end WnVerif.Props.C18
